@@ -93,6 +93,15 @@ PROPS = {
           'increments counted independently by the recorder. Non-trivial: laws with >=1 merge/reset/gob combining two scopes; e2e run on both executors.',
           variants={'quick': ['plain'], 'thorough': ['plain', 'race']}, nbatch=(8, 16),
           must_observe=['law_op_merge', 'law_op_gob', 'law_op_reset', 'runs_with_nonzero_counters', 'increments_checked']),
+ 'C08': P('exploration',
+          'cases = (program spec with random pragmas, machine combiners on/off, optionally a Result argument of an earlier invocation): each is '
+          'compiled by the driver path, compiled again, and compiled from the gob-transported invocation with references substituted as '
+          'worker.Compile does; canonical dumps (names, shard/partition counts, combine keys, partitioner kind, pragmas, pipelined slices, groups, '
+          'dependency wiring) must be identical, and a structural checker written against the slice DAG asserts: acyclic, unique names, one root '
+          'per result shard, one task per shard per stage, no pipelining across shuffle/Materialize/Result, shard p wired to partition p of every '
+          'producer shard, producer NumPartition == consumer shards. 12 fixed programs are compiled by every child process and their digests '
+          'compared across processes. Non-trivial: the graph has a shuffle edge or a reused Result.',
+          nbatch=(4, 16), must_observe=['graphs_compiled', 'tasks_checked', 'cross_process_values_compared']),
 }
 
 META = {
@@ -152,4 +161,9 @@ META = {
     text='Exploration: algebraic laws of Scope/Counter checked step by step against a model, plus end-to-end totals on both executors; thorough adds the race detector for concurrent increments.',
     note='Counters are registered at package init in a fixed order. Failure-free runs only.',
     technique='model-based law checking + end-to-end conservation check (increments performed == increments reported)'),
+ 'C08': dict(
+    text='Exploration: the real compiler is run on generated invocations through the driver and worker code paths (verif exports) and its '
+         'output compared for determinism and checked against structural invariants stated on the slice DAG.',
+    note='Uses exec.VerifMakeInvocation/Compile/Encode/VerifDecodeInvocation. Cached shards (dependencies dropped) are covered by C13.',
+    technique='determinism (repeat / transport / cross-process) and structural invariant monitoring of compiled graphs'),
 }
